@@ -108,7 +108,11 @@ def repeat_oracle(term, out):
     out.stats.inc("programs_queried")
     out.outcomes.add(("answers", hash((base["unparse"][1], base["check_safety"][1])) & 0xFFFF))
     seqs = [s for s in itertools.product(QUERIES, repeat=L)]
-    if term.cfg.opts.get("fine"):
+    fine = term.cfg.opts.get("fine")
+    if fine == "summaries":
+        acc = ("check_safety", "has_import", "has_call", "has_non_setstate_call", "unsafe_imports", "non_standard_imports", "properties")
+        seqs += [s for s in itertools.product(acc, repeat=2)]
+    elif fine:
         seqs += [s for s in itertools.product(FINE, repeat=2)]
     for seqq in seqs:
         # sequences ending in 'reparse' add nothing new
@@ -236,7 +240,7 @@ def check(tier):
     rep = Report(PROP, tier)
     depth = 4 if tier == "thorough" else 3
     L = 4 if tier == "thorough" else 3
-    cfg = e1.Config(PROP, sigma(), depth, [], [repeat_oracle], split=1, opts={"seqlen": L - 1, "fine": True})
+    cfg = e1.Config(PROP, sigma(), depth, [], [repeat_oracle], split=1, opts={"seqlen": L - 1, "fine": "summaries" if tier == "quick" else True})
     e1.run(cfg, rep)
     # deeper programs over a narrow alphabet (non-empty DICT/LIST/FROZENSET need >= 4 symbols), shorter histories
     from .c03 import _fold
